@@ -6,7 +6,7 @@ it removes chunks from any list in the case and replaces expression nodes by one
 their sub-expressions or by a literal, keeping a candidate only when the check still
 fails with the same signature."""
 
-EXPR_TAGS = {"num", "str", "nil", "true", "false", "var", "group", "bin", "un", "tern", "assign", "opassign", "call",
+EXPR_TAGS = {"num", "str", "mlstr", "nil", "true", "false", "var", "group", "bin", "un", "tern", "assign", "opassign", "call",
              "prop", "index", "list", "tuple", "map", "interp", "lambda", "self", "at", "super", "chan", "recv", "send"}
 
 
